@@ -653,6 +653,20 @@ def run_case(prop, seed, case):
                         if do(op + ['0', '~']) != 'ok':
                             fails.append({'step': len(hist) - 1, 'oracle': 'builder', 'failures': ['pre-seeded definition refused']})
                             return dict(ops=hist, dumps=dumps, fails=fails, kind='builder')
+        stripped = 0
+        if prop == 'C08' and edif and idents:
+            # cells that carry an EDIF identifier but NO name (the shape of the repaired finding
+            # C08-uniquify-unnamed-identifier): the copies must get fresh identifiers although there is no name to
+            # suffix. Own PRNG so that the other choices of the case stay what they were.
+            rng_s = random.Random('%d/%s/%d/stripname' % (seed, prop, case))
+            if rng_s.random() < 0.4:
+                shared = [d for d in mids if d in idents and len(w.objs[d].references) >= 2]   # the cells uniquify will copy
+                pool = shared if (shared and rng_s.random() < 0.85) else [d for d in mids if d in idents]
+                for d in rng_s.sample(pool, min(len(pool), rng_s.choice([1, 1, 2]))):
+                    if do(['setname', str(d), '~']) != 'ok':
+                        fails.append({'step': len(hist) - 1, 'oracle': 'builder', 'failures': ['removing the name of a cell refused']})
+                        return dict(ops=hist, dumps=dumps, fails=fails, kind='builder')
+                    stripped += 1
         before = elab.elaborate(n)
         libs_before = snapshot_libs(n)
         ndefs_before = sum(len(lib.definitions) for lib in n.libraries)
@@ -705,7 +719,7 @@ def run_case(prop, seed, case):
                     bad.append('second uniquify changed the netlist (%s)' % out)
             if bad:
                 fails.append({'step': len(hist) - 1, 'oracle': 'Uniquify', 'failures': bad[:6]})
-            return dict(ops=hist, dumps=dumps, fails=fails, skipped=skipped, kind='depth%d%s%s' % (len(info['layers']), '-edif' if edif else '', '-preseeded' if preseeded else ''))
+            return dict(ops=hist, dumps=dumps, fails=fails, skipped=skipped, stripped=stripped, kind='depth%d%s%s%s' % (len(info['layers']), '-edif' if edif else '', '-preseeded' if preseeded else '', '-unnamedcell' if stripped else ''))
         if prop == 'C09' and mids and rng.random() < 0.3:
             # a child whose own name already looks like a path below its parent instance ("u1/q" inside u1)
             d = rng.choice(mids)
@@ -845,10 +859,12 @@ def clash_witness():
 
 
 def unnamed_identifier_witness():
-    """Props/C08.v, C08_unnamed_cell_with_identifier_sample: a cell with an EDIF identifier but no name, under the EDIF
-    policy, instantiated twice. _make_instance_unique renames the copy only when the cell has a name, so the copy keeps
-    the identifier and add_definition refuses it: ValueError half-way (independent of the suffix counter). Replayed on
-    the implementation and on the model step by step; the outcome is recorded (suspected defect, reported separately)."""
+    """Props/C08.v, C08_unnamed_cell_with_identifier_sample (the repaired finding C08-uniquify-unnamed-identifier): a
+    cell with an EDIF identifier but no name, under the EDIF policy, instantiated twice. _make_instance_unique used to
+    rename the copy only when the cell has a name, so the copy kept the identifier and add_definition refused it with
+    ValueError half-way. Proved of the model: the run completes, the copy carries the identifier mid_sdn_unique_0 and
+    no name, sits right after the cell in its library, instance a is re-pointed to it, the counter ends at 1, nothing
+    is left outside the library. Run on the implementation and on the model, step by step."""
     T = netgen.tok_of_s
     ops = [['policy', '1'],
            ['new', 'netlist', T('n'), '0'],
@@ -869,14 +885,24 @@ def unnamed_identifier_witness():
             outs.append(out)
             dumps.append(w.dump(out))
         lib = w.objs[1]
+        copy = w.objs[9] if len(w.objs) > 9 else None
         facts = {'outcome': outs[-1], 'objects': len(w.objs), 'library': [d.name for d in lib.definitions],
-                 'copy_outside_library': (len(w.objs) > 9 and w.objs[9].library is None),
-                 'leaf_references': len(w.objs[2].references)}
+                 'library_identifiers': [d['EDIF.identifier'] if 'EDIF.identifier' in d else None for d in lib.definitions],
+                 'copy': (copy.name, copy['EDIF.identifier'] if 'EDIF.identifier' in copy else None, copy.library is lib) if copy is not None else None,
+                 'leaf_references': len(w.objs[2].references),
+                 'leaf_references_outside_library': len([x for x in w.objs[2].references if x.parent is None or x.parent.library is not lib]),
+                 'a_references_copy': copy is not None and w.objs[6].reference is copy, 'b_references_original': w.objs[7].reference is w.objs[3],
+                 'counter_after': __import__('spydrnet.uniquify', fromlist=['x']).MOD_NAME_UID}
     finally:
         w.close()
     model = run_model([ops])[0]
     dis = [j for j, (a, b) in enumerate(zip(dumps, model)) if a != b]
-    return {'ops': ops, 'facts': facts, 'first_disagreement_step': dis[:1], 'model_steps': len(model), 'impl_steps': len(dumps)}
+    expected = {'outcome': 'ok', 'objects': 11, 'library': ['LEAF', None, None, 'top'],
+                'library_identifiers': [None, 'mid', 'mid_sdn_unique_0', None], 'copy': (None, 'mid_sdn_unique_0', True),
+                'leaf_references': 2, 'leaf_references_outside_library': 0, 'a_references_copy': True, 'b_references_original': True,
+                'counter_after': 1}
+    return {'ops': ops, 'facts': facts, 'expected': expected, 'as_proved': facts == expected, 'first_disagreement_step': dis[:1],
+            'model_steps': len(model), 'impl_steps': len(dumps)}
 
 
 QUICK = {'C07': 120, 'C08': 120, 'C09': 120}
@@ -994,14 +1020,23 @@ def run(prop, tier, seed, replay):
     unnamed = None
     if prop == 'C08':
         unnamed = unnamed_identifier_witness()
-        if unnamed['first_disagreement_step'] or unnamed['model_steps'] != unnamed['impl_steps']:
+        if not unnamed['as_proved'] and unnamed['facts'].get('outcome') != 'ok':
+            # the implementation stops half-way: "new definitions get fresh, non-colliding names" fails on this input
+            rep.violation('unnamed-identifier-witness', {'kind': 'property-violation-on-implementation', 'engine': 'xform',
+                                                         'what': 'uniquify does not complete on a netlist (EDIF naming policy) in which a cell that carries an '
+                                                                 'EDIF.identifier but no name is instantiated twice: ' + str(unnamed['facts'].get('outcome')),
+                                                         'ops': [' '.join(o) for o in unnamed['ops']], 'facts': unnamed['facts'],
+                                                         'expected': unnamed['expected'], 'witness_script': 'corpus/py/c08-uniquify-unnamed-cell.py'})
+        elif not unnamed['as_proved']:
+            rep.violation('unnamed-identifier-witness', {'kind': 'property-violation-on-implementation', 'engine': 'xform',
+                                                         'what': 'uniquify completes on the unnamed-cell witness but not with the result proved of the model '
+                                                                 '(Props/C08.v, C08_unnamed_cell_with_identifier_sample): identifier mid_sdn_unique_0 on the copy, '
+                                                                 'copy inside the library, instance re-pointed, no stray reference',
+                                                         'ops': [' '.join(o) for o in unnamed['ops']], 'facts': unnamed['facts'], 'expected': unnamed['expected']})
+        elif unnamed['first_disagreement_step'] or unnamed['model_steps'] != unnamed['impl_steps']:
             rep.violation('unnamed-identifier-witness', {'kind': 'correspondence-broken', 'engine': 'xform',
                                                          'what': 'the unnamed-cell witness of Props/C08.v (C08_unnamed_cell_with_identifier_sample) behaves differently on the implementation and on the model',
                                                          'witness': unnamed}, found_input=False)
-        elif unnamed['facts'].get('outcome') != 'ok':
-            kf = [k for k in known if k.get('status') == 'open' and k.get('signature') == 'uniquify-unnamed-identifier']
-            if kf:
-                rep.known_finding('%s: %s' % (kf[0].get('id'), kf[0].get('what')))
     wall = time.time() - t0
     theorems = proof['theorems']
     coverage = {
@@ -1025,6 +1060,7 @@ def run(prop, tier, seed, replay):
         'name_clash_witness': witness,
         'unnamed_identifier_witness': unnamed,
         'cases_with_preseeded_names': sum(1 for r in results if 'preseeded' in r['kind']),
+        'cases_with_unnamed_cells_carrying_identifiers': sum(1 for r in results if r.get('stripped', 0) > 0),
         'cases_where_uniquify_skipped_a_used_suffix': sum(1 for r in results if r.get('skipped', 0) > 0),
         'suffixes_skipped_total': sum(max(0, r.get('skipped', 0)) for r in results),
         'exhaustive': False,
